@@ -563,6 +563,8 @@ class ScrollBar(WidgetDecoration[WrappedWidget]):
         top_height = int((maxrow - thumb_height) * top_weight)
         if top_height == 0 and top_weight > 0:
             top_height = 1
+            # a one-row view has no room to keep the thumb off the top: the thumb gives way
+            thumb_height = min(thumb_height, maxrow - top_height)
 
         # Bottom part is remaining space
         bottom_height = maxrow - thumb_height - top_height
